@@ -10,6 +10,7 @@
 import YtkProofs.Pipeline
 import YtkProofs.PipelineWF
 import YtkProofs.PipelineLoop
+import YtkProofs.GapPipeline
 
 namespace Ytk.C14
 open Ytk.Pipeline
@@ -595,5 +596,150 @@ theorem nonvacuous_run_wf :
   simp only [exS1, List.mem_singleton] at hp
   subst hp
   exact Action.litWF_of_b exG (by decide +kernel)
+
+/-! ### round 8 (lean/CLAUSES_B.md, clauses C14.2, C14.4, C14.6, C14.9) -/
+
+/-- C14.2: inside an iteration the loop variable IS the item: `Child(variable)` on the data the body
+    starts with returns the item (any variable name), and for a plain name (no trailing index group) so
+    does the map lookup a template action `{{ .variable }}` performs. -/
+theorem forEach_var_bound (d : AMap Node) (v : String) (it : Node) :
+    child (add d v it) v = some it ∧ (hasIdxSuffix v = false → AMap.get? (add d v it) v = some it) :=
+  ⟨PD.child_add_self d v it, fun hx => by rw [add_of_noSuffix _ _ hx, AMap.get?_insert_self]⟩
+
+/-- … and that data is what the cloned body operations are started with (restating `forEach_item_shape`) -/
+theorem forEach_body_starts_bound (n : Nat) (v : String) (b : Action) (it : Node) (st : St) :
+    ∃ k : St → Res, run (n + 1) (.item v b it) st =
+      ((run n (.cloneOps (opsOf b)) (st.setData (add st.data v it))).andThen k).mapSt
+        fun s => s.setData (remove s.data v) := ⟨_, rfl⟩
+
+/-- C14.4 for EVERY non-empty arguments path (dotted, list-item components): what the callable finds at
+    the arguments path is the rendered argument container -/
+theorem call_args_visible_dotted (d : AMap Node) (p : String) (v : Node) (hne : p ≠ "") :
+    lookup (addValueAt d p v) p = some v := PD.lookup_addValueAt_self' d v hne
+
+/-- C14.6, forEach: the mechanism itself disturbs no other data.  For a plain variable name `v` and any
+    other top-level key `k`: binding the variable does not change what is found at `k`, and what is found
+    at `k` after the iteration is what the BODY left there (`bodyRes` = the run of the cloned operations
+    and the children, before the deferred Remove). -/
+theorem forEach_item_frame (n : Nat) (v : String) (b : Action) (it : Node) (st : St) (k : String)
+    (hx : hasIdxSuffix v = false) (hk : k ≠ v) :
+    let bodyRes := (run n (.cloneOps (opsOf b)) (st.setData (add st.data v it))).andThen fun st =>
+      wrap "steps" (run n (.steps (sortActs b.children)) st)
+    AMap.get? (add st.data v it) k = AMap.get? st.data k ∧
+    AMap.get? (run (n + 1) (.item v b it) st).st.data k = AMap.get? bodyRes.st.data k ∧
+    (run (n + 1) (.item v b it) st).tr = bodyRes.tr ∧ (run (n + 1) (.item v b it) st).err = bodyRes.err := by
+  intro bodyRes
+  refine ⟨?_, ?_, rfl, rfl⟩
+  · rw [add_of_noSuffix _ _ hx, AMap.get?_insert_ne _ _ hk]
+  · rw [forEach_item_shape]
+    simp only [Res.mapSt, St.setData, remove]
+    exact AMap.get?_erase_ne _ hk
+
+/-- C14.6, forEach (`forEach_frame` of DESIGN §6): a body that leaves the data as it found it (e.g. only
+    logs) and a variable that was not in the data before — the iteration returns the data UNCHANGED,
+    whatever the outcome of the body. -/
+theorem forEach_frame_pure (n : Nat) (v : String) (b : Action) (it : Node) (st : St)
+    (hs : AMap.Sorted st.data) (hx : hasIdxSuffix v = false) (hv : AMap.get? st.data v = none)
+    (hbody : ((run n (.cloneOps (opsOf b)) (st.setData (add st.data v it))).andThen fun st =>
+      wrap "steps" (run n (.steps (sortActs b.children)) st)).st.data = add st.data v it) :
+    (run (n + 1) (.item v b it) st).st.data = st.data := by
+  rw [forEach_item_shape]
+  simp only [Res.mapSt, St.setData, remove] at hbody ⊢
+  rw [hbody, add_of_noSuffix _ _ hx]
+  exact erase_insert_fresh hs it hv
+
+/-- C14.6, call with a single-key arguments path `p`: every other top-level key holds after the call
+    what the CALLABLE left there, and binding the arguments did not change it before. -/
+theorem call_frame (n : Nat) (name : String) (ap : Option String) (args : Node) (spec : Action) (st : St)
+    (h : AMap.get? st.defs name = some spec)
+    (hp : splitPath (renderLenient (ap.getD "args") st.data) = [renderLenient (ap.getD "args") st.data])
+    (hx : hasIdxSuffix (renderLenient (ap.getD "args") st.data) = false) (k : String)
+    (hk : k ≠ renderLenient (ap.getD "args") st.data) :
+    let p := renderLenient (ap.getD "args") st.data
+    let d0 := addValueAt st.data p (renderArgs st.data args)
+    AMap.get? d0 k = AMap.get? st.data k ∧
+    AMap.get? (run (n + 1) (.op (.call name ap args)) st).st.data k =
+      AMap.get? (run n (.act spec) (st.setData d0)).st.data k := by
+  intro p d0
+  refine ⟨?_, ?_⟩
+  · simp only [d0, addValueAt, p, hp, addAtSegs]
+    rw [add_of_noSuffix _ _ hx, AMap.get?_insert_ne _ _ hk]
+  · rw [call_shape n name ap args spec st h]
+    simp only [wrap, Res.mapSt, St.setData, removeAt, hp, removeAtSegs, remove]
+    exact AMap.get?_erase_ne _ hk
+
+/-- C14.9: a container query yields its KEYS (as string leaves), each key exactly once.  (The model
+    visits them in key order; Go's map order is unspecified.  That the effect of the whole loop is
+    independent of that order is NOT claimed — bodies have effects.) -/
+theorem itemsOf_container_keys (q : VoR) (its : Option (List VoR)) (d : AMap Node) (kvs : AMap Node)
+    (h : lookup d (q.resolve d) = some (.cont kvs)) (hs : AMap.Sorted kvs) :
+    (itemsOf (some q) its d).map (ItemE.resolve d) = kvs.map (fun p => Node.leaf ⟨"string", p.1⟩) ∧
+    (itemsOf (some q) its d).length = kvs.length ∧ (kvs.map (·.1)).Nodup := by
+  refine ⟨?_, ?_, sorted_keys_nodup hs⟩
+  · simp only [itemsOf, h, List.map_map]
+    rfl
+  · simp only [itemsOf, h, List.length_map]
+
+/-- the hypotheses of `forEach_frame_pure` / `itemsOf_container_keys` on concrete data: a logging body
+    over the keys of the container `m` (variable `i`, absent before) -/
+theorem nonvacuous_forEach_frame :
+    let d : AMap Node := [("m", .cont [("a", .leaf ⟨"int", "1"⟩), ("b", .leaf ⟨"int", "2"⟩)])]
+    let body : Action := .mk "b" 0 none [.log "key={{ .i }}"] []
+    hasIdxSuffix "i" = false ∧ AMap.get? d "i" = none ∧
+    (itemsOf (some ⟨false, "", "m"⟩) none d).map (ItemE.resolve d) =
+      [.leaf ⟨"string", "a"⟩, .leaf ⟨"string", "b"⟩] ∧
+    ((run 8 (.cloneOps (opsOf body)) (St.setData ⟨d, []⟩ (add d "i" (.leaf ⟨"string", "a"⟩)))).andThen fun st =>
+      wrap "steps" (run 8 (.steps (sortActs body.children)) st)).st.data = add d "i" (.leaf ⟨"string", "a"⟩) ∧
+    logsOf (run 30 (.op (.forEach (some ⟨false, "", "m"⟩) none (some "i") body)) ⟨d, []⟩).tr = ["key=a", "key=b"] ∧
+    (run 30 (.op (.forEach (some ⟨false, "", "m"⟩) none (some "i") body)) ⟨d, []⟩).st.data = d := by
+  decide +kernel
+
+/-- C14.6 for the WHOLE forEach (any number of items, any fuel, also when an iteration fails): if the body
+    leaves the data as it found it — for every item and from every state holding the same data (the
+    registry of callables may differ) — and the variable was not in the data before, the data after the
+    loop is the data before it. -/
+theorem forEach_frame_pure_all (v : String) (b : Action) (d : AMap Node) (hs : AMap.Sorted d)
+    (hx : hasIdxSuffix v = false) (hv : AMap.get? d v = none)
+    (hbody : ∀ (m : Nat) (it : Node) (st' : St), st'.data = d →
+      ((run m (.cloneOps (opsOf b)) (st'.setData (add st'.data v it))).andThen fun s =>
+        wrap "steps" (run m (.steps (sortActs b.children)) s)).st.data = add st'.data v it) :
+    ∀ (n : Nat) (its : List ItemE) (st : St), st.data = d → (run n (.items v b its) st).st.data = d := by
+  have hitem : ∀ (n : Nat) (it : Node) (st : St), st.data = d → (run n (.item v b it) st).st.data = d := by
+    intro n it st hd
+    cases n with
+    | zero => exact hd
+    | succ m =>
+      rw [forEach_frame_pure m v b it st (hd ▸ hs) hx (hd ▸ hv) (hbody m it st hd)]
+      exact hd
+  intro n
+  induction n with
+  | zero => intro its st hd; exact hd
+  | succ n ih =>
+    intro its st hd
+    cases its with
+    | nil => exact hd
+    | cons it its =>
+      rw [forEach_trace]
+      have h1 := hitem n (it.resolve st.data) st hd
+      unfold Res.andThen
+      split
+      · exact h1
+      · exact ih its _ h1
+
+/-- the hypothesis holds for a body that only logs (every fuel, every item, every state): the whole
+    loop over any item list returns the data unchanged -/
+theorem nonvacuous_forEach_frame_all (d : AMap Node) (hs : AMap.Sorted d) (hv : AMap.get? d "i" = none)
+    (n : Nat) (its : List ItemE) (defs : AMap Action) :
+    (run n (.items "i" (.mk "b" 0 none [.log "plain"] []) its) ⟨d, defs⟩).st.data = d := by
+  refine forEach_frame_pure_all "i" _ d hs (by decide) hv ?_ n its ⟨d, defs⟩ rfl
+  intro m it st' _
+  have hops : opsOf (.mk "b" 0 none [.log "plain"] []) = [.log "plain"] := by rfl
+  have hcs : sortActs (Action.mk "b" 0 none [.log "plain"] []).children = [] := rfl
+  rw [hops, hcs]
+  match m with
+  | 0 => rfl
+  | 1 => rfl
+  | 2 => rfl
+  | m + 3 => rfl
 
 end Ytk.C14
